@@ -454,6 +454,13 @@ func (fc *followerController) append(req *proto.Append, stream proto.OxiaLogRepl
 			slog.Int64("commit-offset", req.CommitOffset),
 			slog.Int64("offset", req.Entry.Offset),
 		)
+		if req.Entry.Offset > fc.wal.LastOffset() {
+			// The first copy of the entry was appended but is not synced yet: it must not be
+			// acknowledged before it is durable
+			if err := fc.wal.Sync(fc.ctx); err != nil {
+				return err
+			}
+		}
 		if err := stream.Send(&proto.Ack{Offset: req.Entry.Offset}); err != nil {
 			fc.closeStreamNoMutex(err)
 		}
